@@ -245,8 +245,12 @@ func (n *trieNode) containsIP(ip net.IP, depth uint64) bool {
 		return true
 	}
 	if n.bitmap != nil {
+		// Individual addresses of this /24 (or /120) live in the bitmap; prefixes longer than that but shorter
+		// than a full address (/25../31, /121../127) are in the children below, so keep descending on a miss.
 		last := ip[len(ip)-1]
-		return n.bitmap.contains(last)
+		if n.bitmap.contains(last) {
+			return true
+		}
 	}
 	b := getBitAt(ip, depth)
 	next := n.children[b]
